@@ -359,7 +359,79 @@ print(count[0])
     return results
 
 
+_DOWNLOAD_CHILD = r'''
+import contextlib, logging, os, resource, signal, sys
+import httpx
+from mwlib.network import transport
+logging.disable(logging.CRITICAL)
+path, limit, nchunks, tail = sys.argv[1], int(sys.argv[2]), int(sys.argv[3]), int(sys.argv[4])
+CHUNK = 16384
+BODY = (bytes(range(256)) * 64) * nchunks + b"t" * tail
+class R:
+    status_code = 200
+    headers = {"content-length": str(len(BODY))}
+    def raise_for_status(self): return None
+    def iter_bytes(self, chunk_size=CHUNK):
+        for pos in range(0, len(BODY), chunk_size):
+            yield BODY[pos:pos + chunk_size]
+class C:
+    @contextlib.contextmanager
+    def stream(self, method, url, **kw):
+        yield R()
+if limit >= 0:
+    signal.signal(signal.SIGXFSZ, signal.SIG_IGN)
+    _, hard = resource.getrlimit(resource.RLIMIT_FSIZE)
+    resource.setrlimit(resource.RLIMIT_FSIZE, (limit, hard))
+code = 4
+try:
+    transport.download_with_retries(client=C(), url="https://upload.example.org/img.png", path=path, temp_path=(path + "\\xb7").encode("utf-8"),
+                                    retry_policy=transport.build_download_retry_policy(0, 1, 2), http_status_error_cls=httpx.HTTPStatusError,
+                                    sleep_fn=lambda s: None, logger=logging.getLogger("x"))
+    code = 0
+except OSError:
+    code = 3
+sys.stdout.write(str(len(BODY)))
+sys.stdout.flush()
+os._exit(code)
+'''
+
+
+def download_size_limit_search():
+    """the real download_with_retries against a stand-in HTTP client, under a file size limit (write(2) fails with EFBIG as
+    it fails with ENOSPC on a full disk) placed at every interesting position: inside a chunk write, at a chunk boundary,
+    inside the short last chunk - which sits in the file object's buffer until the close"""
+    import os, shutil, subprocess, sys, tempfile
+    base = tempfile.mkdtemp(prefix="verif_c20_")
+    n = 0
+    try:
+        for nchunks, tail in ((1, 5002), (0, 700), (2, 0), (1, 1)):
+            size = 16384 * nchunks + tail
+            for limit in sorted({-1, 0, 1, 5000, 16383, 16384, 16385, 20000, size - 1, size}):
+                if limit > size:
+                    continue
+                n += 1
+                path = os.path.join(base, f"img{n}.png")
+                p = subprocess.run([sys.executable, "-c", _DOWNLOAD_CHILD, path, str(limit), str(nchunks), str(tail)], capture_output=True, text=True, env=dict(os.environ), timeout=120)
+                if p.returncode not in (0, 3):
+                    return n, {"detail": f"download child failed: exit {p.returncode}: {p.stderr[-300:]}", "witness": {"limit": limit, "body": size}, "class": "download-child"}
+                if os.path.exists(path):
+                    got = os.path.getsize(path)
+                    if got != size:
+                        return n, {"detail": f"body of {size} bytes ({nchunks} full chunks + {tail}), file size limit {limit}: download_with_retries "
+                                             f"{'returned normally' if p.returncode == 0 else 'raised OSError'} and the image path holds {got} bytes",
+                                   "witness": {"body_bytes": size, "file_size_limit": limit, "published_bytes": got}, "class": "truncated-download-published"}
+                elif p.returncode == 0:
+                    return n, {"detail": f"download returned normally but the image path is absent (limit {limit}, body {size})", "witness": {"limit": limit, "body": size}, "class": "download-lost"}
+    finally:
+        shutil.rmtree(base, ignore_errors=True)
+    return n, None
+
+
 def bounded(chk):
+    n9, f9 = download_size_limit_search()
+    chk.bounded_result("download_under_a_file_size_limit", n9, n9, True,
+                       "real transport.download_with_retries, stand-in HTTP client, 4 body shapes x up to 10 RLIMIT_FSIZE positions (inside a chunk, at a chunk boundary, inside the buffered last chunk = error at close): the image path is absent or complete",
+                       [f9] if f9 else [])
     n0, f0 = downloads_share_no_file()
     chk.bounded_result("concurrent_downloads_share_no_file", n0, n0, True,
                        "real Fetcher.schedule_download_image on (url, title) pairs that map to one file name (same title with different urls, titles collapsed by fs_escape): one download per destination",
@@ -400,6 +472,7 @@ def run(chk):
     p_write_zip(chk)
     p_download(chk)
     p_render_block(chk)
+    bare_zip_writer_call_sites(chk)
     bounded(chk)
     chk.assumptions += [
         "tempfile.mkstemp returns a fresh name different from the published path",
@@ -628,3 +701,41 @@ def downloads_share_no_file():
         finally:
             shutil.rmtree(d, ignore_errors=True)
     return n, None
+
+
+def bare_zip_writer_call_sites(chk):
+    """zip_dir() and ZipCreator._write_zip() open their target with ZipFile(path, 'w'): truncating, not atomic.  Every
+    call site in src/mwlib hands them a name that is bound from tempfile.mkstemp only (the published path goes through
+    ZipCreator.create_zip, which is under contract) - or no target at all (zip_dir's default: next to the source dir)."""
+    import os
+    sites, bad = 0, []
+    for dp, _dn, fns_ in os.walk(os.path.join(source.SRC, "mwlib")):
+        for f in fns_:
+            if not f.endswith(".py"):
+                continue
+            path = os.path.join(dp, f)
+            try:
+                tree = ast.parse(open(path, encoding="utf-8").read())
+            except (OSError, SyntaxError):
+                continue
+            for fn in ast.walk(tree):
+                if not isinstance(fn, ast.FunctionDef):
+                    continue
+                for c in ast.walk(fn):
+                    if not (isinstance(c, ast.Call) and ast.unparse(c.func).split(".")[-1] in ("zip_dir", "_write_zip")):
+                        continue
+                    if fn.name == "zip_dir" and ast.unparse(c.func).endswith("_write_zip"):
+                        continue      # zip_dir's own body: its target is its parameter, checked at zip_dir's call sites
+                    sites += 1
+                    target = c.args[1] if len(c.args) > 1 else next((k.value for k in c.keywords if k.arg in ("output", "zip_path")), None)
+                    if target is None:
+                        continue
+                    ok = False
+                    if isinstance(target, ast.Name):
+                        binds = [ast.unparse(a.value) for a in ast.walk(fn) if isinstance(a, ast.Assign)
+                                 for t in a.targets for e in (t.elts if isinstance(t, (ast.Tuple, ast.List)) else [t]) if isinstance(e, ast.Name) and e.id == target.id]
+                        ok = bool(binds) and all("mkstemp(" in b for b in binds)
+                    if not ok:
+                        bad.append(f"{os.path.relpath(path, source.SRC)}:{c.lineno} {fn.name}: {ast.unparse(c)[:100]}")
+    chk.static("buildzip.bare_zip_writers_get_temp_names_only", sites >= 2 and not bad, f"{sites} call sites of zip_dir / _write_zip; target not bound from mkstemp: {bad}",
+               {"call_sites": bad}, "bare-zip-writer", None if not bad else False)
